@@ -31,15 +31,29 @@ def make_dataset(rng, **o):
         keep = rng.randrange(sem['n_templates'])
         sem['spike_templates'] = [keep] * sem['n_spikes']
     elif layout is not None and layout[0] == 'parts':
-        # 22 raw files of 4 rows = 22 chunks > n_chunks_kept = 20: the selector keeps every second chunk (0, 2, ...);
+        # 22 (or layout[2]) raw files of 4 rows = as many chunks > n_chunks_kept = 20: the selector keeps every
+        # ceil(n/20)-th chunk (0, 2, ... for 22; 0, 3, ... for 41..60);
         # layout[1] of the spikes lie in kept chunks, the others in skipped ones; every template is used
         nk, nspk, nt = layout[1], sem['n_spikes'], sem['n_templates']
-        chunks = sorted(rng.sample(range(0, 22, 2), nk) + rng.sample(range(1, 22, 2), nspk - nk))
-        sem['spike_samples'] = sorted(4 * c + rng.randrange(4) for c in chunks)
+        nparts = layout[2] if len(layout) > 2 else 22
+        step = max(1, -(-nparts // 20))
+        kept = [c for c in range(nparts) if c % step == 0]
+        skipped = [c for c in range(nparts) if c % step]
+
+        def pick(cands, telling, n):
+            # the first chunk is one a neighbouring step (step + 1) would treat differently, when there is one
+            telling = [c for c in cands if telling(c)]
+            first = [rng.choice(telling)] if (n and telling) else []
+            return first + rng.sample([c for c in cands if c not in first], n - len(first))
+        chunks = sorted(pick(kept, lambda c: c % (step + 1) != 0, nk) +
+                        (pick(skipped, lambda c: c % (step + 1) == 0, nspk - nk) if skipped else
+                         rng.sample(kept, nspk - nk)))
+        rows = 4 if nparts < 30 else 2
+        sem['spike_samples'] = sorted(rows * c + rng.randrange(rows) for c in chunks)
         st = [k % nt for k in range(nspk)]
         rng.shuffle(st)
         sem['spike_templates'] = st
-        sem['raw']['sizes'] = [4] * 22
+        sem['raw']['sizes'] = [rows] * nparts
     ds = D.render(sem, rng, names=names, label=o.get('label', rng.choice(['', 'probe00'])),
                   write_clusters=o.get('write_clusters', rng.random() < 0.5),
                   id_dtype=o.get('id_dtype', rng.choice(['uint32', 'int32', 'int64'])),
